@@ -4,7 +4,7 @@ sys.path.insert(0, os.path.join(os.path.dirname(os.path.abspath(__file__)), '..'
 import vcommon as V
 
 PROPS = ['props/C16.v']
-GEN_OBLIGATIONS = ['globals_written_empty', 'globals_no_escape', 'globals_no_process_state_calls']
+GEN_OBLIGATIONS = ['globals_written_empty', 'globals_no_escape', 'globals_no_process_state_calls', 'globals_no_sync_state']
 ASSUMPTIONS = [
     "abstraction: a library call is a thread of atomic Read/Write/Local actions over a shared store indexed by the package-level "
     "variables of in_toto; all other state (arguments, locals, the files below the call's own directory, its own metadata objects) "
@@ -28,6 +28,11 @@ ASSUMPTIONS = [
     "and are not counted; cmd/ and internal/ are inventoried separately (cobra flag variables) and are outside the library property",
     "*regexp.Regexp package variables are taken as immutable (documented safe for concurrent use); error sentinels are interface "
     "values that are never re-assigned",
+    "blocking is not modelled: a thread of model/Conc.v can always take its next step, so the theorem says nothing about calls "
+    "waiting for each other. The translator lists package-level channels / sync primitives / atomics (pkg_sync_vars, obligation "
+    "globals_no_sync_state: none today) and channel operations on package variables; at run time every phase of every batch runs "
+    "under a deadline (10 x estimated sequential time, at least 20 s) and a phase that does not return is a violation of class "
+    "deadlock with the blocked goroutine stacks",
     "race detector: reports only races that occur in the executed interleavings; absence of a report is evidence, not proof",
 ]
 EXPLANATION = (
@@ -77,7 +82,8 @@ def _run(ctx, spec, tag, seed_off=0):
     env = {'GORACE': GORACE}
     if seed_off:
         env['VERIF_SEED'] = str(ctx.seed + seed_off)
-    rc, o = ctx.run([binp, 'run', work, out, g, str(rounds), procs, yld, mixes], timeout=3000, env=env)
+    # every phase of every batch has its own deadline inside the harness (exit 77); this outer limit is a backstop
+    rc, o = ctx.run([binp, 'run', work, out, g, str(rounds), procs, yld, mixes], timeout=(420 if ctx.tier == 'quick' else 2400), env=env)
     open(os.path.join(ctx.dir, 'run-%s.log' % tag), 'w').write(o)
     shutil.rmtree(work, ignore_errors=True)
     batches = [json.loads(l) for l in open(out)] if os.path.exists(out) else []
@@ -136,8 +142,27 @@ def _violations(rc, o, batches):
                      'impl': 'DATA RACE reported by the Go race detector in ' + (', '.join(frames0[:4]) or 'code outside in_toto'),
                      'expected': 'no data race between independent calls',
                      'what': 'data race between library calls on independent data'})
-    # 3. the process died (e.g. "fatal error: concurrent map writes")
-    if rc not in (0, 66):
+    # 3. a phase of a batch did not return within its deadline (harness exit 77), or the whole run hit the outer limit
+    hung = [b for b in batches if b.get('did_not_return')]
+    if hung or rc in (77, 124):
+        if hung:
+            b = hung[0]
+            h = b['did_not_return']
+            inp = _params(b)
+            inp.update({'phase': h['phase'], 'deadline_s': h['deadline_s'], 'goroutines_blocked_in_in_toto': h['goroutines_blocked_in_in_toto'],
+                        'blocked_stacks': h['blocked_stacks'], 'trees': b.get('trees'), 'tasks': b.get('tasks')})
+            frames = _in_toto_frames('\n'.join(h['blocked_stacks']))
+            impl = 'the %s phase did not finish within %.0f s: %d goroutines blocked inside in_toto (%s)' % (
+                h['phase'], h['deadline_s'], h['goroutines_blocked_in_in_toto'], ', '.join(frames[:5]))
+        else:
+            inp = dict(cur or {})
+            inp['output_tail'] = o[-5000:]
+            impl = 'the harness process did not finish (exit %d) and wrote no did-not-return record' % rc
+        viol.append({'klass': 'deadlock', 'case': {'id': inp.get('id', -1), 'input': inp}, 'impl': impl,
+                     'expected': 'every call returns (the same calls made one after the other do)',
+                     'what': 'library calls on independent data did not return when made concurrently (deadlock / did-not-return)'})
+    # 4. the process died (e.g. "fatal error: concurrent map writes")
+    if rc not in (0, 66, 77, 124):
         inp = dict(cur or {})
         fatal = re.search(r'(fatal error: [^\n]*|panic: [^\n]*|\[TIMEOUT[^\n]*)', o)
         inp['exit_code'] = rc
@@ -163,6 +188,8 @@ def _inventory(ctx):
         return None, 'translator failed: ' + o[-300:]
     txt = open(p).read()
     inv = {}
+    ms = re.search(r'Definition pkg_sync_vars\b[^:]*:[^=]*:=(.*?)\.\n', txt, re.S)
+    inv['pkg_sync_vars'] = re.findall(r'\(\(bs "([^"]*)"\), \(bs "([^"]*)"\)\)', ms.group(1)) if ms else None
     for name in ('pkg_var_writes', 'pkg_var_escapes', 'pkg_init_writes', 'pkg_process_state_calls', 'pkg_init_process_state_calls'):
         m = re.search(r'Definition %s\b[^:]*:[^=]*:=(.*?)\.\n' % name, txt, re.S)
         inv[name] = re.findall(r'\(\(bs "([^"]*)"\), \(bs "([^"]*)"\), \(bs "([^"]*)"\)\)', m.group(1)) if m else None
@@ -218,7 +245,7 @@ def correspondence(ctx):
                                        if b['goroutines'] >= 2 and b['calls'] >= 2))
     corr.rule = ("one evaluation = one batch: G goroutines (2..32), each issuing 3-6 library calls drawn from a call mix on its own "
                  "generated tree (plain / file symlinks / symlinked directories / nested symlinked directories / symlink cycle / "
-                 "dangling link), keys and metadata files; results compared call by call with the same calls made sequentially "
+                 "dangling link / larger files with chains of file and directory symlinks), keys and metadata files; results compared call by call with the same calls made sequentially "
                  "on an identical copy of the tree; run under the race detector; quick: G in {2,8,32} x 6 mixes (one of them rare-paths: malformed rule patterns distinct per goroutine and call, unparsable metadata, failing inspections, the error return of every entry point, RecordStart/Stop, MatchProducts) x "
                  "yield on/off, plus 3 cold-start processes of one 32/8-goroutine batch each (concurrent calls run before the sequential "
                  "ones, so lazily initialised state is first touched concurrently); thorough adds GOMAXPROCS in {1,2,4,16}, more G, "
@@ -252,19 +279,21 @@ def correspondence(ctx):
     written = (inv or {}).get('pkg_var_writes') or []
     escapes = (inv or {}).get('pkg_var_escapes') or []
     procs = (inv or {}).get('pkg_process_state_calls') or []
+    syncs = (inv or {}).get('pkg_sync_vars') or []
     for v in corr.violations:
         v['case']['input']['translator_pkg_var_writes'] = written
         v['case']['input']['translator_pkg_process_state_calls'] = procs
-    if inv is None or written or escapes or procs:
+        v['case']['input']['translator_pkg_sync_vars'] = syncs
+    if inv is None or written or escapes or procs or syncs:
         # the inventory obligation does not hold for the tree under test (whatever coq/gen currently contains):
         # the theorem no longer applies to this code
         corr.disagreements.append({
             'klass': 'inventory', 'case': {'id': -1, 'input': {'pkg_var_writes': written, 'pkg_var_escapes': escapes,
-                                                             'pkg_process_state_calls': procs, 'error': inv_err}},
-            'impl': 'pkg_var_writes = %s; pkg_var_escapes = %s; pkg_process_state_calls = %s' % (
-                json.dumps(written), json.dumps(escapes), json.dumps(procs)),
-            'model': 'pkg_var_writes = []; pkg_var_escapes = []; pkg_process_state_calls = [] (obligations globals_written_empty, '
-                     'globals_no_escape, globals_no_process_state_calls of props/C16.v)'})
+                                                             'pkg_process_state_calls': procs, 'pkg_sync_vars': syncs, 'error': inv_err}},
+            'impl': 'pkg_var_writes = %s; pkg_var_escapes = %s; pkg_process_state_calls = %s; pkg_sync_vars = %s' % (
+                json.dumps(written), json.dumps(escapes), json.dumps(procs), json.dumps(syncs)),
+            'model': 'pkg_var_writes = []; pkg_var_escapes = []; pkg_process_state_calls = []; pkg_sync_vars = [] (obligations '
+                     'globals_written_empty, globals_no_escape, globals_no_process_state_calls, globals_no_sync_state of props/C16.v)'})
     return corr
 
 
@@ -295,4 +324,4 @@ def replay(ctx, case):
         rc, o = ctx.run([binp, 'replay', p, str(times)], timeout=1200, env={'GORACE': GORACE})
         o = re.sub(r'C16-BATCH (begin|end)[^\n]*\n', '', o)
         print(o[-12000 // nproc:])
-        print('process %d/%d: exit code %d (66 = the race detector reported at least one data race)' % (k + 1, nproc, rc))
+        print('process %d/%d: exit code %d (66 = the race detector reported at least one data race, 77 = a phase did not return within its deadline)' % (k + 1, nproc, rc))
